@@ -345,7 +345,9 @@ func catalogue(b *built) []mutation {
 
 	// ---- query (non-authentication parameters) ----
 	var qeditc func(kind, class string, f func(pairs []string, idx []int, rg *vkit.Rand) ([]string, bool))
-	qedit := func(kind string, f func(pairs []string, idx []int, rg *vkit.Rand) ([]string, bool)) { qeditc(kind, "", f) }
+	qedit := func(kind string, f func(pairs []string, idx []int, rg *vkit.Rand) ([]string, bool)) {
+		qeditc(kind, "", f)
+	}
 	qeditc = func(kind, class string, f func(pairs []string, idx []int, rg *vkit.Rand) ([]string, bool)) {
 		add(wireEdit(kind, class, func(b *built, w *wireReq, rg *vkit.Rand) bool {
 			pairs := splitQuery(w.RawQuery)
